@@ -34,6 +34,7 @@ def parse_case_line(line):
 def gen_fixed(rng, chan, Ms=(1, 2, 4)):
     """C03: a fixed set of listeners, 1-3 producers, fewer events than the buffer holds"""
     N = rng.choice([4, 8]); M = rng.choice(Ms); k = rng.randint(1, M)
+    if chan != "mmap_log" and 4 in Ms and rng.random() < 0.2: N = 2; M = 4; k = rng.randint(3, 4)        # more listeners than buffer slots
     nprod = rng.randint(1, 3)
     total = rng.randint(1, N - 1)
     progs = [[] for _ in range(nprod)]
@@ -458,6 +459,12 @@ def oracle_lost_wakeup(case, recs):
                     # the movable atomic Uni channel (F1) whenever that sample can be stale, i.e. another thread acted inside some send
                     if unigen.sends_overlap(case, recs): cls = "C04.multi_atomic.overlapping_sends"
                     elif unigen.consumer_inside_a_send(case, recs): cls = "C04.multi_atomic.overlapping_sends"
+                    # the known mechanism, exactly: a publication goes un-woken only when its sample was >= 3 (`len_after <= 2` wakes), i.e. at
+                    # least two earlier events of this listener's ring were unreleased when the send looked at `head`; for the listener to sit
+                    # parked in the end it consumed them before that send published: the send of the FIRST event still queued has >= 2 of this
+                    # listener's yields inside it. Fewer: not the known finding.
+                    inside = unigen.yields_inside_send(case, recs, drained[i][0], listener=i)
+                    if cls is not None and inside is not None and inside[0] < 2: cls = None
                 hits.append((cls, "lost wake-up: listener %d is parked and not notified with %d accepted event(s) in its queue, all producers returned" % (i, len(drained[i]))))
     return hits[:1]
 
@@ -540,3 +547,54 @@ def nontrivial_history(case, recs):
     """an id was reused"""
     ids = [r[3] for r in recs if r[0] == "ret" and r[2] == 17]
     return len(ids) != len(set(ids))
+
+
+# ---- the log channel's old / new split while producers are sending (C09; oracle only) ----
+def gen_split(rng):
+    """mmap_log: 1-2 producers send while one thread creates an old / new pair of streams (every shared access of the creation is a
+    scheduling point, so sends complete in the middle of it) and then polls the new one; the final drain collects the rest of both"""
+    M = 4; nprod = rng.randint(1, 2)
+    progs = []
+    for t in range(nprod): progs.append([("send", [1000 * (t + 1) + j]) for j in range(rng.randint(2, 7))])
+    progs.append([("split", [])] + [("pollc", []) for _ in range(rng.randint(0, 3))])
+    nthreads = len(progs)
+    pre = []
+    # a few sends first, then a phase in which the splitter and the producers alternate in short bursts
+    for _ in range(rng.randint(0, 30)): pre.append(rng.randrange(nprod))
+    mid = []
+    for _ in range(rng.randint(20, 120)):
+        t = rng.choice([nthreads - 1] * 2 + list(range(nprod)))
+        mid += [t] * rng.choice([1, 1, 2, 3, 6])
+    sched = pre + mid
+    for _ in range(80): sched += list(range(nthreads))
+    return mk_case("mmap_log", 8, M, 0, progs, sched, {"profile": "split"})
+
+def oracle_split(case, recs):
+    """C09: the old stream yields exactly the events before one point of the log and ends, the new stream exactly those after it: every
+    accepted event is yielded by exactly one of the two, and of one producer's events the old stream gets a prefix, the new one the rest"""
+    hits = []
+    progs = case.meta["progs"]; sent = {}
+    for t, p in enumerate(progs):
+        for n, a in p:
+            if n == "send": sent[a[0]] = t
+    for r in recs:
+        if r[0] == "panic": hits.append((None, "panic in thread %d" % r[1]))
+    sp = [r for r in recs if r[0] == "ret" and r[2] == 16]
+    if not sp: return hits
+    old_id, new_id = sp[0][3], sp[0][4]
+    ok = [r[3] for r in recs if r[0] == "ret" and r[2] == 10]
+    per = {}
+    for r in recs:
+        if r[0] == "ret" and r[2] == 12: per.setdefault(r[4], []).append(r[3])
+    fin = final_info(recs)
+    if fin is None or not fin[0] or len(ok) != len(sent): return hits
+    drained = fin[1]
+    old = per.get(old_id, []) + drained.get(old_id, []); new = per.get(new_id, []) + drained.get(new_id, [])
+    both = sorted(set(old) & set(new)); missing = sorted(set(ok) - set(old) - set(new))
+    if both: hits.append((None, "events %s were yielded by the old AND the new stream of the split" % both))
+    if missing: hits.append((None, "accepted events %s were yielded by neither the old nor the new stream of the split (old: %s, new: %s)" % (missing, old, new)))
+    if len(set(old)) != len(old) or len(set(new)) != len(new): hits.append((None, "a stream of the split yielded an event twice (old: %s, new: %s)" % (old, new)))
+    for t in set(sent.values()):
+        o = [v for v in old if sent.get(v) == t]; n = [v for v in new if sent.get(v) == t]
+        if o + n != sorted(o + n): hits.append((None, "producer %d's events are not split at one point in its send order: old %s, new %s" % (t, o, n)))
+    return hits[:1]
